@@ -5,7 +5,7 @@
    correctness on rational matrices of every size (row equivalent result in row echelon
    form on the first c-1 columns, all entries rational), and proves that under the
    computable guard [pffge_no_skip] the routine that exists computes the same thing.    *)
-From SE Require Import C24.DenseModel C24.DenseBase C24.DenseSpec C24.DenseOps C24.DenseGJ C24.DenseGJ2 C24.DenseGE.
+From SE Require Import C24.DenseLegacy C24.DenseModel C24.DenseBase C24.DenseSpec C24.DenseOps C24.DenseGJ C24.DenseGJ2 C24.DenseGE.
 From Coq Require Import Lia ZifyBool ZifyNat ZifyN.
 Local Open Scope N_scope.
 Local Open Scope res_scope.
@@ -103,7 +103,7 @@ Lemma pffge_fixed_unfold A B pl0 :
 Proof. reflexivity. Qed.
 
 Lemma pffge_unfold A B pl0 :
-  pivoted_fraction_free_gaussian_elimination A B pl0 =
+  pivoted_fraction_free_gaussian_elimination_v0 A B pl0 =
   if dcol A =? 0 then ErrExn EXN_EMPTY else
   do st <- for_range 0 (dcol A - 1) (ffge_body_bug (drow A) (dcol A)) (dm A, pl0, 0);
   let '(m, pl, _) := st in Ok (setm B m, pl).
@@ -406,7 +406,7 @@ Proof.
     exists m, pl, d, M, pc. split; [exact E|]. split; [assumption|]. split; assumption.
 Qed.
 
-(* the repaired pivoted_fraction_free_gaussian_elimination on an r x c matrix of rationals
+(* the repaired pivoted_fraction_free_gaussian_elimination_v0 on an r x c matrix of rationals
    (c > 0): total, the result is a good r x c matrix (all entries rational: no division by
    zero happens), row equivalent to A, in row echelon form on the first c - 1 columns *)
 Theorem pffge_fixed_spec A B r c :
@@ -482,7 +482,7 @@ Definition pffge_no_skip (A : dmat) : bool :=
    compute the same result *)
 Theorem pffge_guarded A B r c :
   good A r c -> 0 < c -> pffge_no_skip A = true ->
-  pivoted_fraction_free_gaussian_elimination A B [] =
+  pivoted_fraction_free_gaussian_elimination_v0 A B [] =
   pivoted_fraction_free_gaussian_elimination_fixed A B [].
 Proof.
   intros HG Hc0. unfold pffge_no_skip. intros Hns. rewrite pffge_unfold, pffge_fixed_unfold.
@@ -507,7 +507,7 @@ Qed.
 
 Corollary pffge_spec_guarded A B r c :
   good A r c -> 0 < c -> drow B = r -> dcol B = c -> pffge_no_skip A = true ->
-  exists B' pl, pivoted_fraction_free_gaussian_elimination A B [] = Ok (B', pl) /\
+  exists B' pl, pivoted_fraction_free_gaussian_elimination_v0 A B [] = Ok (B', pl) /\
     good B' r c /\ row_equiv r c (fm_of A) (fm_of B') /\ exists pc, is_ef r (c - 1) (fm_of B') pc.
 Proof.
   intros HG Hc0 Hr Hc Hns. rewrite (pffge_guarded A B r c HG Hc0 Hns). now apply pffge_fixed_spec.
@@ -524,6 +524,18 @@ Proof. vm_compute. reflexivity. Qed.
 
 Example pffge_skip_witness :
   let A := zmat 3 4 [1; 2; 3; 4;  2; 4; 7; 9;  3; 6; 8; 1]%Z in
-  cell_is_zero (pivoted_fraction_free_gaussian_elimination A (mzero 3 4) []) 2 2 = Some false /\
+  cell_is_zero (pivoted_fraction_free_gaussian_elimination_v0 A (mzero 3 4) []) 2 2 = Some false /\
   cell_is_zero (pivoted_fraction_free_gaussian_elimination_fixed A (mzero 3 4) []) 2 2 = Some true.
 Proof. vm_compute. split; reflexivity. Qed.
+
+(* ------------------------------------------------------------------ the model after the repair *)
+Lemma pffge_model_is_fixed A B pl0 :
+  pivoted_fraction_free_gaussian_elimination A B pl0
+  = pivoted_fraction_free_gaussian_elimination_fixed A B pl0.
+Proof. reflexivity. Qed.
+
+Theorem pffge_spec A B r c :
+  good A r c -> 0 < c -> drow B = r -> dcol B = c ->
+  exists B' pl, pivoted_fraction_free_gaussian_elimination A B [] = Ok (B', pl) /\
+    good B' r c /\ row_equiv r c (fm_of A) (fm_of B') /\ exists pc, is_ef r (c - 1) (fm_of B') pc.
+Proof. intros. rewrite pffge_model_is_fixed. now apply pffge_fixed_spec. Qed.
